@@ -77,6 +77,8 @@ def classify(msg):
     m = re.match(r"^Can't render (\S+) with itself", msg)
     if m:
         return ["notMapping", m.group(1)]
+    if msg.startswith("Can't extract first path segment") or msg.startswith("Unable to extract last segment") or msg.startswith("Empty node name"):
+        return ["metaParts"]
     return ["other", m0]
 
 # which positions of a classified error are compared, per class (the entities the
@@ -99,6 +101,7 @@ COMPARED = {
     "io": [],
     "other": [],
     "config": [],
+    "metaParts": [],
 }
 
 def err_projection(e):
